@@ -181,41 +181,138 @@ def _innermost_block_containing_all(root, nodes):
 
 
 def r3(ctx):
+    """forward skip connections, decided on the E6 summary of Network::forward.  For every way through one layer visit i:
+       - whether a skip is combined is decided by the presence of an entry for i in self.connect (and by nothing else);
+       - without one, the layer receives the last recorded activation unchanged;
+       - with one, the source is activated[connect[i]], used as is when its shape equals the input's and reshaped to the input's shape
+         otherwise (or always reshaped), combined by exactly the primitive of self.skipaccumulation (Overwrite: the source replaces the
+         input; Mean: mean_inplace over [source]), the combined tensor is what _forward receives AND what is stored back as the
+         layer's recorded input."""
+    from .. import e6
     c = ctx.crate
     fn = ctx.fn("network::Network::forward")
-    loops = [x for x in walk(fn["body"], into_closures=False) if x.get("k") == "for" and any(cal == "network::Network::_forward" for _, cal in calls(x["body"]))]
-    lp = loops[0]
-    ih = pat_binds(lp["pat"])[0][1]
-    skip_ifs = [s for s in top_stmts_of(lp["body"]) if map_guard(s, "connect") is not None]
-    if len(skip_ifs) != 1:
-        raise Unestablished("expected one skip block guarded by a lookup in self.connect in the layer loop, found %d" % len(skip_ifs), c.loc(fn, lp))
-    sk = skip_ifs[0]
-    mg = map_guard(sk, "connect")
-    ctx.check("R16.3", "guard-key-is-layer-index", e4.local_hid(mg["key"]) == ih, "guard-key-not-layer-index", c.loc(fn, sk),
-              "the skip block is entered iff self.connect has an entry for the layer index i")
-    # source tensor: activated[<value stored under i>]
-    src = [x for x in walk(sk["th"]) if x.get("k") == "index" and strip(x["b"]).get("k") == "local" and strip(x["b"])["name"] == "activated"]
-    ok = any(is_lookup(x["i"], "connect", ih, mg["bound"]) for x in src)
-    ctx.check("R16.3", "source-is-activated[connect[i]]", ok, "source-tensor-not-activated[connect[i]]", c.loc(fn, sk),
-              "source = activated[self.connect[&i]]", "skip source is %s" % [short(pretty(x), 60) for x in src])
-    # reshape when shapes differ
-    resh = [x for x in walk(sk["th"]) if x.get("k") == "if" and any(y.get("k") == "mcall" and y["callee"] == "tensor::Tensor::reshape" for y in walk(x["th"]))]
-    okr = False
-    for x in resh:
-        cnd = strip(x["c"])
-        if cnd.get("k") == "bin" and cnd["op"] == "Ne" and mentions_field(cnd, "shape"):
-            okr = True
-    ctx.check("R16.3", "reshape-when-shapes-differ", okr, "no-reshape-on-shape-mismatch", c.loc(fn, sk), "if _x.shape != x.shape { reshape }")
-    ms = acc_matches(sk["th"])
-    if len(ms) != 1:
-        raise Unestablished("expected one match on the accumulation kind in the skip block", c.loc(fn, sk))
+    E = e6.Exec(c, fn)
+    live = [p for p in E.run_fn() if p.exit is None or p.exit[0] == "return"]
+    if len(live) != 1:
+        raise Unestablished("Network::forward: expected one non-panicking path, found %d" % len(live), c.loc(fn))
+    walks = [e for e in live[0].eff if e[0] == "loop" and E.loop_summaries[e[1]].get("kind") == "for"
+             and e6.find_terms(tuple(q.eff for q in E.loop_summaries[e[1]]["paths"]), lambda t: t[0] == "call" and t[1] == "network::Network::_forward")]
+    if len(walks) != 1:
+        raise Unestablished("expected one layer loop calling _forward in Network::forward, found %d" % len(walks), c.loc(fn))
+    lid = walks[0][1]
+    L = E.loop_summaries[lid]
+    where = c.loc(fn, L["node"])
+    I = ("elem", L["iter"], lid)
+    CON = ("field", ("p", "self"), "connect")
+    ACCF = ("field", ("p", "self"), "skipaccumulation")
+    val = live[0].val if live[0].exit is None else live[0].exit[1]
+    act_n = e6.root_name(val[1][1]) if isinstance(val, tuple) and val and val[0] == "tup" and len(val[1]) == 4 else "activated"
+    ACT = ("loopin", act_n, lid)
+    X0 = ("call", "std::option::Option::<T>::unwrap", (("call", "core::slice::<impl [T]>::last", (ACT,)),))
+    X0alts = {X0, ("idx", ACT, e6.mk_bin("Sub", ("call", "std::vec::Vec::<T, A>::len", (ACT,)), ("lit", "1")))}
+    PRIM = {"Add": "tensor::Tensor::add_inplace", "Subtract": "tensor::Tensor::sub_inplace", "Multiply": "tensor::Tensor::mul_inplace", "Mean": "tensor::Tensor::mean_inplace"}
+    res = {}
 
-    def ow(body):
-        return any(x.get("k") == "assign" for x in walk(body))
-    check_acc_dispatch(ctx, "R16.3", fn, ms[0], "skip-dispatch", overwrite_ok=ow)
-    scr = strip(ms[0]["scrut"])
-    ctx.check("R16.3", "dispatch-on-skipaccumulation", scr.get("k") == "field" and scr["f"] == "skipaccumulation",
-              "dispatch-on-wrong-setting:" + pretty(scr), c.loc(fn, ms[0]), "match self.skipaccumulation")
+    def note(key, ok, detail=""):
+        res.setdefault(key, []).append((ok, detail))
+    seen_v = {}
+    n_skip = n_plain = 0
+    for q in L["paths"]:
+        if q.exit is not None and q.exit[0] == "panic":
+            continue
+        fw = e6.find_terms(tuple(q.eff), lambda t: t[0] == "call" and t[1] == "network::Network::_forward" and len(t[2]) == 4 and e6.lin(t[2][2]) == e6.lin(I))
+        if not fw:
+            note("guard", False, "a layer visit does not run the layer")
+            continue
+        XARG = fw[0][2][1]
+        has = None
+        key_ok = True
+        SRCI = None
+        for (t, pol) in q.pc:
+            ck = e6.is_call(t, "contains_key", 2)
+            if ck and ck[0] == CON:
+                has = pol
+                key_ok = key_ok and e6.lin(ck[1]) == e6.lin(I)
+                SRCI = ("idx", CON, I)
+            if isinstance(t, tuple) and t[0] == "is" and t[2] in ("Option::Some", "Option::None"):
+                g = e6.is_call(t[1], "get", 2)
+                if g and g[0] == CON:
+                    has = pol if t[2] == "Option::Some" else (not pol)
+                    key_ok = key_ok and e6.lin(g[1]) == e6.lin(I)
+                    SRCI = ("payload", t[1], "Option::Some", 0)
+        uses_connect = e6.contains(tuple(q.eff), CON)
+        if has is None:
+            if uses_connect:
+                note("guard", False, "a visit reads self.connect without testing for an entry")
+            has = False
+        note("guard", key_ok, "the entry looked up is not the one of the layer index")
+        wb = [e for e in q.eff if e[0] == "set" and e6.contains(e[1], ("local", act_n))]
+        if not has:
+            n_plain += 1
+            note("plain", XARG in X0alts and not wb, "without a skip the layer receives %s" % e6.show(XARG, 3)[:100])
+            continue
+        n_skip += 1
+        A = ("idx", ACT, SRCI)
+        note("source", e6.contains(XARG, A) or e6.contains(XARG, ("idx", ACT, ("un", "Deref", SRCI))), "skip source: %s" % e6.show(XARG, 3)[:120])
+        A_ = A if e6.contains(XARG, A) else ("idx", ACT, ("un", "Deref", SRCI))
+        RS = ("call", "tensor::Tensor::reshape", (A_, ("field", X0, "shape")))
+        same = None
+        for (t, pol) in q.pc:
+            if isinstance(t, tuple) and t[0] == "bin" and t[1] == "Eq" and {t[2], t[3]} == {("field", X0, "shape"), ("field", A_, "shape")}:
+                same = pol
+        if same is True:
+            SKs = [A_, RS]
+        elif same is False:
+            SKs = [RS]
+        else:
+            SKs = [RS]
+        V = None
+        for (t, pol) in q.pc:
+            if pol and isinstance(t, tuple) and t[0] == "is" and t[1] == ACCF:
+                V = t[2].split("::")[-1]
+        if V is None:
+            note("dispatch", False, "a skip is combined without consulting self.skipaccumulation")
+            continue
+        seen_v.setdefault(V, []).append(same)
+        good = False
+        for SK in SKs:
+            if V in ("Add", "Subtract", "Multiply"):
+                want = ("upd", X0, PRIM[V] + "@" + e6.show(("local", "x")), (SK,))
+                good = good or (isinstance(XARG, tuple) and XARG[0] == "upd" and XARG[1] in X0alts and XARG[2].startswith(PRIM[V] + "@") and XARG[3] == (SK,))
+            elif V == "Mean":
+                good = good or (isinstance(XARG, tuple) and XARG[0] == "upd" and XARG[1] in X0alts and XARG[2].startswith(PRIM[V] + "@") and XARG[3] == (("vec", (SK,)),))
+            elif V == "Overwrite":
+                good = good or XARG == SK
+        prim_used = sorted({e[1].rsplit("::", 1)[-1] for e in q.eff if e[0] == "mut" and e[1] in PRIM.values()})
+        note("arm:" + V, good, "%s: the layer receives %s (reshape decided: %s)" % (V, e6.show(XARG, 3)[:140], same))
+        note("reshape", same is not None or good, "the source is neither compared by shape nor reshaped")
+        note("writeback", len(wb) >= 1 and all(e[2] == XARG for e in wb), "stored back: %s" % [e6.show(e[2], 2)[:60] for e in wb])
+    def verdict(key):
+        r_ = res.get(key, [])
+        return bool(r_) and all(x[0] for x in r_), next((x[1] for x in r_ if not x[0]), "")
+    ok, why = verdict("guard")
+    ctx.check("R16.3", "guard-key-is-layer-index", ok and n_skip > 0 and n_plain > 0, "guard-key-not-layer-index:" + short(why, 60), where,
+              "the skip block is entered iff self.connect has an entry for the layer index i", why)
+    ok, why = verdict("plain")
+    ctx.check("R16.3", "no-skip-no-change", ok, "input-changed-without-skip:" + short(why, 60), where, "without an entry the layer input is the last activation", why)
+    ok, why = verdict("source")
+    ctx.check("R16.3", "source-is-activated[connect[i]]", ok, "source-tensor-not-activated[connect[i]]", where, "source = activated[self.connect[&i]]", why)
+    ok, why = verdict("reshape")
+    both = any(True in v for v in seen_v.values()) and any(False in v for v in seen_v.values()) or all(None in v for v in seen_v.values())
+    ctx.check("R16.3", "reshape-when-shapes-differ", ok and bool(seen_v) and both, "no-reshape-on-shape-mismatch", where, "if _x.shape != x.shape { reshape }", why)
+    acc = c.adts.get("feedback::Accumulation")
+    for v in [v_["name"] for v_ in acc["variants"]]:
+        ok, why = verdict("arm:" + v)
+        if v not in seen_v:
+            ctx.bad("R16.3", "skip-dispatch:" + v, "accumulation-variant-not-handled", where, "no way through the skip block handles %s" % v)
+        else:
+            ctx.check("R16.3", "skip-dispatch:" + v, ok, "wrong-primitive-or-operand:" + short(why, 80), where, "%s combines input and source with its own primitive" % v,
+                      "skip accumulation %s" % why)
+    ok, why = verdict("dispatch")
+    ctx.check("R16.3", "dispatch-on-skipaccumulation", ("dispatch" not in res or ok) and bool(seen_v), "dispatch-on-wrong-setting:" + short(why, 60), where, "match self.skipaccumulation")
+    ok, why = verdict("writeback")
+    ctx.check("R16.2", "skip-input-written-back:every-path", ok, "modified-input-not-stored:" + short(why, 60), where,
+              "the combined tensor replaces the layer's recorded input", "Network::forward: %s; Network::backward uses activated[idx] as this layer's input" % why)
 
 
 def r4(ctx):
